@@ -447,6 +447,11 @@ def r16_6(ctx):
         if not starts or not reg:
             r.ob(key, False, C.mloc(mb, mb), "no resolve_type test (%d) or no registration call (%d)" % (len(starts), len(reg)))
             continue
+        # the option test itself lies on every path through the hook: an early return before it skips the registration altogether
+        tests = {blk["i"] for blk in mb["blocks"] if (lambda ts_: ts_ and ts_[0] == "field" and any(f.strip(".") in ("options.resolve_type", "resolve_type") for f in ts_[1]))(_true_succ(mb, fl, blk))}
+        if tests and not g.must_pass(tests):
+            r.ob(key, False, C.mloc(mb, mb), "a path returns (bb%s) before the resolve_type test: declarations taking that path are never registered" % g.escaping_exit(tests))
+            continue
         ok = all(g.must_pass(reg, start=s) for s in starts)
         e = None
         if not ok:
